@@ -24,7 +24,8 @@ RULE = ("(a) diff / interp / min / max along one axis with all five positions, a
         "chunks with the input's, and the refusal with the model's. (b) at implementation level: cumsum, "
         "derivative, integrate, average, cumint, multi-axis calls, apply_as_grid_ufunc with and without "
         "map_overlap, vector inputs on simple and face-connected grids, face-connected grids chunked over the "
-        "face and extra dimensions. Non-trivial = the operated dimension has more than one chunk, or a vector / "
+        "face and extra dimensions, multi-axis calls mixing a chunked axis with an unchunked length-changing one, "
+        "several lazy results evaluated in one graph. Non-trivial = the operated dimension has more than one chunk, or a vector / "
         "face-connected / metric case.")
 
 POS = ["center", "left", "right", "inner", "outer"]
@@ -33,7 +34,7 @@ SHIFTS = [("center", "left"), ("center", "right"), ("center", "inner"), ("center
 OPS = ["diff", "interp", "min", "max"]
 OTHER = ["cumsum", "cumsum_outer", "derivative", "integrate", "average", "cumint", "diff_xy", "interp_xy",
          "ufunc_plain", "ufunc_overlap", "ufunc_overlap_outer", "vec_simple", "vec_faces", "scalar_faces",
-         "scalar_faces_xy", "metric_weighted"]
+         "scalar_faces_xy", "metric_weighted", "multi_outer", "multi_outer_rev", "pair_one_graph", "product_one_graph"]
 
 
 def plen(p, n):
@@ -112,7 +113,7 @@ def _lazy_vs_eager(build_lazy, build_eager, sched):
         eouts = eager if isinstance(eager, (list, tuple)) else [eager]
         is_lazy = all(hasattr(o.data, "dask") for o in outs)
         with dask.config.set(scheduler=sched):
-            comp = [o.compute() for o in outs]
+            comp = list(dask.compute(*outs))       # all results of the call in ONE graph
     ok = built == 0 and is_lazy and len(comp) == len(eouts)
     detail = f"computations while building={built} lazy={is_lazy}"
     for c, e in zip(comp, eouts):
@@ -241,6 +242,27 @@ def run_other(case):
                 expect_refusal = True
                 lazy, eager = (lambda: apply_as_grid_ufunc(f2, dd, **args)), \
                     (lambda: apply_as_grid_ufunc(f2, da, **{**args, "dask": "forbidden", "map_overlap": False}))
+        elif w in ("multi_outer", "multi_outer_rev"):
+            # a later axis goes to a length-changing position but is not chunked: not a refusal
+            order = ["X", "Y"] if w == "multi_outer" else ["Y", "X"]
+            ds2 = ds.assign_coords(yo=("yo", np.arange(4.)))
+            g2 = Grid(ds2, coords={"X": {"center": "xc", "left": "xl"}, "Y": {"center": "yc", "outer": "yo"}},
+                      periodic=False, autoparse_metadata=False)
+            d1 = da.chunk({"xc": ch["xc"], "t": ch["t"]})
+            kw = dict(to={"X": "left", "Y": "outer"}, boundary=b)
+            lazy, eager = (lambda: g2.interp(d1, order, **kw)), (lambda: g2.interp(da, order, **kw))
+        elif w in ("pair_one_graph", "product_one_graph"):
+            # two lazy results with the same chunk layout evaluated in ONE graph
+            import dask
+            db = (da * 3 + 1) % 7
+            ddb = db.chunk(ch)
+            if w == "pair_one_graph":
+                lazy = lambda: [g.interp(dd, "X", boundary=b), g.diff(ddb, "X", boundary=b),
+                                g.interp(ddb, "X", boundary=b)]
+                eager = lambda: [g.interp(da, "X", boundary=b), g.diff(db, "X", boundary=b), g.interp(db, "X", boundary=b)]
+            else:
+                lazy = lambda: g.diff(dd, "X", boundary=b) * g.diff(ddb, "X", boundary=b) + g.interp(dd, "X", boundary=b)
+                eager = lambda: g.diff(da, "X", boundary=b) * g.diff(db, "X", boundary=b) + g.interp(da, "X", boundary=b)
         elif w == "vec_simple":
             u = xr.DataArray(((np.arange(3 * N) * 3) % 7 + 1.0).reshape(3, N), dims=["yc", "xl"])
             chv = {"xl": tuple(composition(rng, N)), "yc": tuple(composition(rng, 3))}
